@@ -264,12 +264,33 @@ pub struct Giant {
     pub len: usize,
     /// (position as a fraction of the length, mapped monotonically; byte written there)
     pub edits: Vec<(u32, u8)>,
+    /// when set, the text is pseudo-random over ACGT from this seed instead of the repeated unit
+    #[serde(default)]
+    pub rand_seed: Option<u64>,
 }
 
 impl Giant {
     pub fn expand(&self) -> Vec<u8> {
         let u = &self.unit.0;
-        let mut out: Vec<u8> = if u.is_empty() { vec![b'A'; self.len] } else { u.iter().cycle().take(self.len).copied().collect() };
+        let mut out: Vec<u8> = if let Some(seed) = self.rand_seed {
+            let mut s = seed;
+            let mut v = Vec::with_capacity(self.len);
+            while v.len() < self.len {
+                s = crate::util::splitmix(s);
+                let mut x = s;
+                for _ in 0..28 {
+                    if v.len() < self.len {
+                        v.push(CLEAN[(x & 3) as usize]);
+                        x >>= 2;
+                    }
+                }
+            }
+            v
+        } else if u.is_empty() {
+            vec![b'A'; self.len]
+        } else {
+            u.iter().cycle().take(self.len).copied().collect()
+        };
         for &(f, b) in &self.edits {
             if self.len > 0 {
                 let p = ((f as u128 * self.len as u128) >> 32) as usize;
@@ -280,12 +301,13 @@ impl Giant {
     }
     /// the description as the Python worker expects it
     pub fn to_json(&self) -> serde_json::Value {
+        assert!(self.rand_seed.is_none(), "pseudo-random giants are sent expanded");
         serde_json::json!({"unit": crate::pyworker::hex(&self.unit.0), "len": self.len, "edits": self.edits})
     }
     pub fn label(&self) -> String {
         let l = self.len;
         let size = if l > (1 << 24) { ">2^24" } else if l > 4_000_000 { ">4M" } else if l > 2_000_000 { ">2M" } else if l > (1 << 20) { ">2^20" } else if l > (1 << 16) { ">2^16" } else { "<=2^16" };
-        format!("giant-{}-{}", if self.unit.0.len() <= 1 { "homopolymer" } else if self.unit.0.len() <= 8 { "short-period" } else { "long-unit" }, size)
+        format!("giant-{}-{}", if self.rand_seed.is_some() { "pseudo-random" } else if self.unit.0.len() <= 1 { "homopolymer" } else if self.unit.0.len() <= 8 { "short-period" } else { "long-unit" }, size)
     }
 }
 
@@ -312,7 +334,7 @@ pub fn giant_near_one(hi: usize) -> BoxedStrategy<Giant> {
             if second {
                 edits.push((pos2, e2));
             }
-            Giant { unit: Bytes(vec![b]), len, edits }
+            Giant { unit: Bytes(vec![b]), len, edits, rand_seed: None }
         })
         .boxed()
 }
@@ -335,7 +357,14 @@ pub fn giant(lo: usize, hi: usize, edit_bytes: Vec<u8>) -> BoxedStrategy<Giant> 
         4 => vec((pos.clone(), select(edit_bytes.clone())), 1).boxed(),
         3 => vec((pos, select(edit_bytes)), 2..=6).boxed(),
     ];
-    (unit, giant_len(lo, hi, GIANT_THRESHOLDS), edits).prop_map(|(unit, len, edits)| Giant { unit: Bytes(unit), len, edits }).boxed()
+    (unit, giant_len(lo, hi, GIANT_THRESHOLDS), edits).prop_map(|(unit, len, edits)| Giant { unit: Bytes(unit), len, edits, rand_seed: None }).boxed()
+}
+
+/// a pseudo-random giant sequence (no period) with a few point edits
+pub fn giant_random(lo: usize, hi: usize, edit_bytes: Vec<u8>) -> BoxedStrategy<Giant> {
+    (any::<u64>(), giant_len(lo, hi, GIANT_THRESHOLDS), vec((any::<u32>(), select(edit_bytes)), 0..=4))
+        .prop_map(|(seed, len, edits)| Giant { unit: Bytes(Vec::new()), len, edits, rand_seed: Some(seed) })
+        .boxed()
 }
 
 // ---------------------------------------------------------------------------------------------
